@@ -57,6 +57,7 @@ Proof.
   - (* header *)
     destruct (tget t (S i)) as [k'|] eqn:K'; try discriminate.
     apply andb_true_iff in H. destruct H as [H1 H2].
+    apply andb_true_iff in H1. destruct H1 as [H1 H3]. apply Nat.ltb_lt in H3.
     eapply dyck_header; eauto.
 Qed.
 
@@ -127,11 +128,11 @@ Qed.
 
 Lemma dyck_inv_header : forall t i e s,
   dyck t i e -> i < e -> tget t i = Some (THeader s) ->
-  dyck t (S i) e /\ exists k, tget t (S i) = Some k /\ is_container k = true.
+  dyck t (S i) e /\ S i < e /\ exists k, tget t (S i) = Some k /\ is_container k = true.
 Proof.
   intros t i e s D L K. inversion D; subst; try lia.
   - rewrite K in H. inversion H; subst. discriminate.
-  - split; auto. eauto.
+  - split; auto. split; auto. eauto.
   - rewrite K in H. inversion H; subst. discriminate.
 Qed.
 
@@ -347,8 +348,8 @@ Proof.
   - exists []. constructor.
   - destruct IHdyck as [l IH]. exists (i :: l). pose proof (dyck_le _ _ _ H1).
     eapply it_one; eauto. destruct k; try discriminate; reflexivity.
-  - destruct IHdyck as [l IH]. exists (i :: l). pose proof (dyck_le _ _ _ H2).
-    eapply it_one; eauto.
+  - destruct IHdyck as [l IH]. exists (i :: l).
+    eapply it_one; eauto. lia.
   - destruct IHdyck2 as [l IH]. exists (i :: l). eapply it_cont; eauto.
 Qed.
 
